@@ -391,7 +391,8 @@ def c13_obligations():
 
 
 BLOCKRED_FUNCS = ["BlockReduce._block_coordinates", "BlockReduce.filter"]
-BLOCKRED_THEOREMS = ["src_BlockReduce_block_coordinates_eq", "src_BlockReduce_filter_unweighted_eq"]
+BLOCKRED_THEOREMS = ["src_BlockReduce_block_coordinates_eq", "src_BlockReduce_filter_unweighted_eq",
+                     "src_BlockReduce_filter_weighted_eq"]
 BLOCKRED_IMPORTS = ("From Verde Require Import Lib.QList Model.BlockReduce Proofs.BlockReduceProofs Proofs.PyLiteBridge "
                     "Proofs.PyLiteBlocks.")
 BLOCKRED_SPEC = ("BlockReduceSrc", os.path.join("verde", "blockreduce.py"), BLOCKRED_FUNCS,
@@ -410,7 +411,8 @@ BLOCKSPLIT_THEOREMS = ["src_block_split_eq", "block_split_model"]
 # sections of the coordinates template that block_split does not use (the slow shape_to_spacing proof, inside)
 BLOCKSPLIT_SKIP = ("shape_to_spacing", "inside (calls check_region)")
 BLOCKSPLIT_SPEC = ("BlockSplitSrc", os.path.join("verde", "coordinates.py"), BLOCKSPLIT_FUNCS,
-                   ["pylite_coordinates.v.tmpl", "pylite_blocksplit.v.tmpl"], COORD_IMPORTS)
+                   ["pylite_coordinates.v.tmpl", "pylite_blocksplit.v.tmpl"],
+                   COORD_IMPORTS + "\nFrom Verde Require Import Model.Blocks Proofs.PyLiteWeights Proofs.PyLiteGrid2.")
 
 
 def blocksplit_obligations():
